@@ -200,6 +200,7 @@ pub fn scenarios(thorough: bool) -> Vec<Scenario> {
     v.push(trio_scenario("trio", if thorough { 8 } else { 6 }));
     v.push(long_chain_scenario("pair-long-chain", if thorough { 3 } else { 2 }, &[]));
     v.push(many_commits_scenario("pair-many-commits", if thorough { 4 } else { 3 }, &[]));
+    v.push(relay_scenario("trio-relay", if thorough { 7 } else { 6 }, &[]));
     v.push(three_leaves_scenario("trio-three-leaves", if thorough { 4 } else { 3 }, &[]));
     v.push(same_edit_scenario("pair-same-edit", if thorough { 4 } else { 3 }, &[]));
     v.push(tie_scenario("pair-tie", if thorough { 4 } else { 3 }, &[]));
